@@ -13,6 +13,7 @@ import (
 	"io"
 	"log/slog"
 	"math/rand"
+	"net"
 	"net/url"
 	"os"
 	"os/exec"
@@ -46,6 +47,9 @@ type hostSpec struct {
 	RepoAuth  bool
 	Extra     bool // extra / malformed challenges before the real one
 	OwnRealm  bool // (cdn / external) bearer challenge names its own token host
+	SameIP    bool // (external) listens on the upstream's address, another port
+	Lacks     bool // (mirror) authenticates the client and then does not have the content
+	OddToken  bool // token endpoint answers with JSON the client cannot decode (tokens still count as issued secrets)
 	h         *modelreg.Host
 	tokenHost *modelreg.Host
 	user      string
@@ -54,10 +58,11 @@ type hostSpec struct {
 }
 
 type topo struct {
-	I     int
-	Hosts []*hostSpec
-	w     *modelreg.World
-	g     *gen.Graph
+	I      int
+	Hosts  []*hostSpec
+	w      *modelreg.World
+	g      *gen.Graph
+	errOut io.Writer
 }
 
 func secret(rng *rand.Rand, tag string) string {
@@ -95,7 +100,8 @@ func genTopo(rng *rand.Rand, i int) *topo {
 		up.Auth = "basic"
 	}
 	if rng.Intn(2) == 0 {
-		add("mirror", "mirror")
+		m := add("mirror", "mirror")
+		m.Lacks = rng.Intn(2) == 0
 	}
 	add("second", "second")
 	if rng.Intn(3) > 0 {
@@ -107,6 +113,9 @@ func genTopo(rng *rand.Rand, i int) *topo {
 		x := add("external", "external")
 		x.Auth = []string{"none", "basic", "bearer"}[rng.Intn(3)]
 		x.OwnRealm = true
+		// external URLs are requested directly (no redirect is involved), so a server that shares the
+		// registry's host name on another port is a different party for the client's own credential lookup
+		x.SameIP = rng.Intn(3) == 0
 	}
 	// redirect targets and external hosts are reached with the upstream's transport settings: they can only
 	// use TLS when the upstream does not pin a certificate (the test certificate is bound to 127.0.0.1)
@@ -124,7 +133,7 @@ func genTopo(rng *rand.Rand, i int) *topo {
 func (t *topo) key() string {
 	var parts []string
 	for _, h := range t.Hosts {
-		parts = append(parts, fmt.Sprintf("%s:%s:%s:%s:%t", h.Role, h.Auth, h.TLS, h.TokenOn, h.Extra))
+		parts = append(parts, fmt.Sprintf("%s:%s:%s:%s:%t:%t:%t:%t", h.Role, h.Auth, h.TLS, h.TokenOn, h.Extra, h.SameIP, h.Lacks, h.OddToken))
 	}
 	return strings.Join(parts, "|")
 }
@@ -152,8 +161,16 @@ func (t *topo) build(rng *rand.Rand) {
 		}
 		return t.w.NewHostOn(name, ip, tls != "plain")
 	}
+	upIP := ""
 	for _, hs := range t.Hosts {
-		hs.h = mk(hs.Name, hs.TLS)
+		if hs.SameIP && upIP != "" {
+			hs.h = t.w.NewHostOn(hs.Name, upIP, hs.TLS != "plain")
+		} else {
+			hs.h = mk(hs.Name, hs.TLS)
+		}
+		if hs.Role == "upstream" {
+			upIP, _, _ = net.SplitHostPort(hs.h.Addr())
+		}
 		hs.h.Cfg.ReferrersAPI = rng.Intn(2) == 0
 		hs.h.Cfg.TagDeleteAPI = rng.Intn(2) == 0
 		hs.user = "user-" + hs.Name
@@ -175,6 +192,9 @@ func (t *topo) build(rng *rand.Rand) {
 			a.IdentityToken = hs.idToken
 			a.User, a.Pass = "", ""
 			hs.pass = ""
+		}
+		if a.Mode == "bearer" && hs.Role != "upstream" && rng.Intn(8) == 0 {
+			hs.OddToken, a.OddTokenJSON = true, true
 		}
 		if hs.Extra {
 			a.Extra = []string{`Negotiate`, `Digest realm="x", nonce="abc"`}
@@ -210,7 +230,13 @@ func (t *topo) build(rng *rand.Rand) {
 	}
 	t.g.ToHost(up.h, "proj/app", nil, true)
 	if m := t.find("mirror"); m != nil {
-		t.g.ToHost(m.h, "proj/app", nil, true)
+		if m.Lacks {
+			t.w.Lock()
+			m.h.Repo("proj/app")
+			t.w.Unlock()
+		} else {
+			t.g.ToHost(m.h, "proj/app", nil, true)
+		}
 	}
 	if c := t.find("cdn"); c != nil {
 		t.g.ToHost(c.h, "proj/app", nil, false)
@@ -354,6 +380,8 @@ func (t *topo) workload(ctx context.Context, rc *regclient.RegClient, rng *rand.
 		}()
 		if err != nil {
 			failed++
+			// what an application would print: part of the output that must stay free of secrets
+			fmt.Fprintf(t.errOut, "operation %s failed: %v\n", s.name, err)
 			if os.Getenv("VERIF_DEBUG") != "" {
 				fmt.Printf("FAILOP %s [%s]: %v\n", s.name, t.key(), err)
 			}
@@ -498,7 +526,7 @@ func (t *topo) audit(logs string) {
 				if a < 0 {
 					a = 0
 				}
-				run.Violation("secret-in-log/"+o.hs.Auth, fmt.Sprintf("a secret of %s appears in the library's log output", o.hs.Name), map[string]any{"topology": t.key(), "log_context": strings.ReplaceAll(logs[a:i], s, "<secret>") + "<secret>"})
+				run.Violation("secret-in-log/"+o.hs.Auth, fmt.Sprintf("a secret of %s appears in the library's log output or in a returned error", o.hs.Name), map[string]any{"topology": t.key(), "log_context": strings.ReplaceAll(logs[a:i], s, "<secret>") + "<secret>"})
 				break
 			}
 		}
@@ -560,6 +588,7 @@ func one(i int) {
 	defer t.w.Close()
 	var logs syncBuf
 	rc := t.client(&logs)
+	t.errOut = &logs
 	ctx, cancel := context.WithTimeout(context.Background(), 60*time.Second)
 	defer cancel()
 	ok, failed := t.workload(ctx, rc, rng)
